@@ -24,6 +24,9 @@ type SV struct {
 }
 
 type SpecCtx struct {
+	calleeRec map[string]*SpecFunc // clauses of a callee's contract: its recursive spec functions...
+	recInst   map[string]string    // ...instantiated for this call (SMT function names)
+	recBase   *SpecCtx             // ...over the pre-state of the call
 	inQuant bool // evaluating the body of a quantifier (bound variables are in scope)
 	tr     *FnTr
 	st     State
@@ -629,6 +632,35 @@ func (c *SpecCtx) callBuiltin(e *Expr) SV {
 
 func (c *SpecCtx) specCall(e *Expr) SV {
 	eng := c.tr.eng
+	if rs := c.calleeRec[e.Name]; rs != nil && c.recInst != nil && c.recBase != nil {
+		if len(rs.Params) != len(e.Args) {
+			c.fail(e, "@%s expects %d arguments", e.Name, len(rs.Params))
+		}
+		fun := c.recInst[e.Name]
+		if fun == "" {
+			eng.qctr++
+			fun = fmt.Sprintf("rs_%s_c%d", rs.Name, eng.qctr)
+			c.recInst[e.Name] = fun
+			rc := *c.recBase
+			rc.calleeRec, rc.recInst, rc.recBase = c.calleeRec, c.recInst, c.recBase
+			rc.clamp = true
+			rc.sides = nil
+			rc.assume = false
+			rc.bound = map[string]SV{}
+			var ps []*Term
+			for _, p := range rs.Params {
+				ps = append(ps, Sym(p+"!rec", SInt))
+				rc.bound[p] = mathInt(ps[len(ps)-1])
+			}
+			body := rc.evalInt(rs.Body)
+			c.tr.vc.DefineRec(fun, ps, body)
+		}
+		var args []*Term
+		for _, a := range e.Args {
+			args = append(args, c.evalInt(a))
+		}
+		return mathInt(App(fun, SInt, args...))
+	}
 	if rs := c.tr.top.recSpecs[e.Name]; rs != nil {
 		if len(rs.Params) != len(e.Args) {
 			c.fail(e, "@%s expects %d arguments", e.Name, len(rs.Params))
